@@ -201,6 +201,11 @@ chk_arm("bind_global", r"Node::BindGlobal \{ \.\. \}", ["C02"], ["sv(final(self)
 chk_arm("push", r"Node::Push\(_\)", ["C02"], ["sv(final(self).stack) == app(sv(old(self).stack), 0, 1)", "final(self).under == old(self).under"],
         desc="a constant pushes one value")
 
+chk_arm("onsub_family", r"&OnSub\(n\) \| &BySub\(n\) \| &WithSub\(n\) \| &OffSub\(n\)", ["C02", "C07"],
+        [f"r.is_ok() ==> {A1}"] + both_views(f"max({F}.args as int, n as int)", f"max({F}.args as int, n as int) - {F}.args + {F}.outputs + n", f"{F}.under_args as int", f"{F}.under_outputs as int"),
+        req=["n <= 0xFFFF"], sig="fn {name}(&mut self, args: &[SigNode], n: usize) -> (r: Result<(), SigCheckError>)",
+        desc="on_n / by_n / with_n / off_n F : |m.(m-a+o+n) with m = max(a,n): the modifier reads max(n, a) values — the same count the run-time arms need (C07.e2.rt.arm_onsub/bysub/withsub)")
+
 NSIG = "fn {name}(&mut self, n: &usize) -> (r: Result<(), SigCheckError>)"
 LOOPINV = lambda a, o, ua, uo: [
     "invariant",
